@@ -409,7 +409,6 @@ fn build(w: &World, db_vault_of: &dyn Fn(ComponentAddress, ResourceAddress) -> O
     let r = |s: &str| -> Option<ResourceAddress> { w.res.get(s.parse::<usize>().ok()?).copied() };
     let fee = Decimal::from(10u64);
     let mb = ManifestBuilder::new();
-    let none = vec![];
     Some(match (t[0], t.len()) {
         ("xfer", 5) => Built::User(mb.lock_fee(a(t[1])?, fee).withdraw_from_account(a(t[1])?, r(t[3])?, amt(t[4])?).try_deposit_entire_worktop_or_abort(a(t[2])?, None).build(), vec![false]),
         ("xfer2", 5) => Built::User(
@@ -574,7 +573,6 @@ fn build(w: &World, db_vault_of: &dyn Fn(ComponentAddress, ResourceAddress) -> O
             )
         }
         ("epoch", 1) => {
-            let _ = none;
             Built::Epoch
         }
         _ => return None,
@@ -1016,10 +1014,11 @@ impl Case {
             }
         }
         // ---- preconditions and cross-checks on the receipt
-        if receipt.costing_parameters.is_some() || true {
-            if fd.to_burn.is_negative() || fd.to_proposer.is_negative() || fd.to_validator_set.is_negative() {
-                flag("negative-fee-destination", format!("{:?}", fd));
-            }
+        if fd.to_burn.is_negative() || fd.to_proposer.is_negative() || fd.to_validator_set.is_negative() {
+            flag("negative-fee-destination", format!("{:?}", fd));
+        }
+        if receipt.transaction_costing_parameters.free_credit_in_xrd.is_positive() {
+            flag("harness-free-credit-used", "the property excludes transactions that use free fee credit".to_string());
         }
         // the engine's own summary of vault changes must agree with the scans
         for (n, (_r, ch)) in &c.state_update_summary.vault_balance_changes {
